@@ -39,6 +39,7 @@ C28(r) ==
          /\ (r.st = "some" => Chk("C28.bounded", r.outLen <= Min2n(30 * r.inLen, MaxProps) /\ r.outLen = r.rawLen, r))
          \* a field within both limits is accepted
          /\ (r.rawLen <= Min2n(30 * r.inLen, MaxProps) => Chk("C28.accepted", r.st = "some", r))
+    [] r.f = "ratio" -> Chk("C28.encodedDecodes", r.st = "encoded" => r.same, r)
     [] r.f = "propsRandom" -> Chk("C28.randomTotal", ~r.panic, r)
     [] OTHER -> TRUE
 
